@@ -154,7 +154,7 @@ def _shape_of(spec) -> str:
         return "union"
     if tag == "td":
         return "TypedDict"
-    return {"list": "list[...]", "set": "set[...]", "frozenset": "frozenset[...]", "seq": "Sequence[...]", "iter": "Iterable[...]", "tuple*": "tuple[X, ...]", "tuple": "tuple[X, Y]", "dict": "dict[K, V]", "map": "Mapping[K, V]"}[tag]
+    return {"list": "list[...]", "set": "set[...]", "frozenset": "frozenset[...]", "seq": "Sequence[...]", "iter": "Iterable[...]", "tuple*": "tuple[X, ...]", "tuple": "tuple[X, Y]", "tupv": "tuple[X, *tuple[Y, ...]]", "dict": "dict[K, V]", "map": "Mapping[K, V]"}[tag]
 
 
 def _container_chunk(args):
@@ -202,8 +202,8 @@ def r03_f(prog: Program, chk: Check) -> None:
         "R03.f",
         "structural assignability of a concrete object as a finite model: on top of R03.e, GenericValue / SequenceValue.can_assign, replace_known_sequence_value and "
         "TypedValue.get_generic_args_for_type are interpreted from their AST (the generic bases of the builtin containers are a table of typeshed facts) for 38 real objects "
-        "(scalars, lists, tuples, sets, frozensets, dicts, nested one level) against 111 types (list / set / frozenset / Sequence / Iterable / tuple[X, ...] / tuple[X, Y] / "
-        "tuple[()] / dict / Mapping over 7 element types, nested containers, unions), and TypedDictValue.can_assign for 21 dict objects against 180 TypedDicts (required / NotRequired / ReadOnly items, open, closed, typed extra items): the object is accepted exactly when it is a structural member",
+        "(scalars, lists, tuples, sets, frozensets, dicts, nested one level) against 123 types (list / set / frozenset / Sequence / Iterable / tuple[X, ...] / tuple[X, Y] / "
+        "tuple[()] / tuple[X, *tuple[Y, ...], Z] with one unpacked member / dict / Mapping over 7 element types, nested containers, unions), and TypedDictValue.can_assign for 21 dict objects against 180 TypedDicts (required / NotRequired / ReadOnly items, open, closed, typed extra items): the object is accepted exactly when it is a structural member",
         floor=20,
     )
     procs = 2 if _os.environ.get("VERIF_SELFTEST") else min(16, _os.cpu_count() or 1)
@@ -229,6 +229,125 @@ def r03_f(prog: Program, chk: Check) -> None:
         raise AnchorError(f"{len(unsupported)} (type, object) pairs cannot be modelled; first: {unsupported[0]}")
 
 
+# ------------------------------------------------------------------- R03.g
+_NONE = type(None)
+_I, _S, _O = ("cls", int), ("cls", str), ("cls", object)
+# annotation as written -> the container-model type (R03.f decides membership for these) it must denote
+R03G_FORMS = (
+    ("int", _I), ("str", _S), ("object", _O), ("None", ("cls", _NONE)), ("Literal[1]", ("lit", 1)), ("Literal['a']", ("lit", "a")),
+    ("Tuple", ("cls", tuple)), ("tuple", ("cls", tuple)), ("List", ("cls", list)), ("list", ("cls", list)), ("Dict", ("cls", dict)), ("dict", ("cls", dict)),
+    ("Set", ("cls", set)), ("FrozenSet", ("cls", frozenset)),
+    ("Tuple[()]", ("tuple", ())), ("tuple[()]", ("tuple", ())),
+    ("Tuple[int]", ("tuple", (_I,))), ("tuple[int]", ("tuple", (_I,))), ("Tuple[int, str]", ("tuple", (_I, _S))), ("tuple[int, str]", ("tuple", (_I, _S))),
+    ("Tuple[int, str, int]", ("tuple", (_I, _S, _I))),
+    ("Tuple[int, ...]", ("tuple*", _I)), ("tuple[str, ...]", ("tuple*", _S)),
+    ("Tuple[int, Unpack[Tuple[str, ...]]]", ("tupv", (_I,), _S, ())), ("tuple[int, *tuple[str, ...]]", ("tupv", (_I,), _S, ())),
+    ("Tuple[Unpack[Tuple[str, ...]], int]", ("tupv", (), _S, (_I,))), ("tuple[int, *tuple[str, ...], int]", ("tupv", (_I,), _S, (_I,))),
+    ("Tuple[int, str, Unpack[Tuple[int, ...]]]", ("tupv", (_I, _S), _I, ())),
+    ("List[int]", ("list", _I)), ("list[str]", ("list", _S)), ("Set[int]", ("set", _I)), ("set[int]", ("set", _I)), ("FrozenSet[str]", ("frozenset", _S)), ("frozenset[int]", ("frozenset", _I)),
+    ("Sequence[int]", ("seq", _I)), ("Iterable[str]", ("iter", _S)), ("Dict[str, int]", ("dict", _S, _I)), ("dict[int, str]", ("dict", _I, _S)), ("Mapping[str, int]", ("map", _S, _I)),
+    ("Optional[int]", ("union", (_I, ("cls", _NONE)))), ("Union[int, str]", ("union", (_I, _S))), ("int | str", ("union", (_I, _S))), ("int | None", ("union", (_I, ("cls", _NONE)))),
+    ("Literal[1, 'a']", ("union", (("lit", 1), ("lit", "a")))),
+    ("List[Tuple[int, str]]", ("list", ("tuple", (_I, _S)))), ("Dict[str, List[int]]", ("dict", _S, ("list", _I))), ("Tuple[List[int], ...]", ("tuple*", ("list", _I))),
+    ("List[Optional[int]]", ("list", ("union", (_I, ("cls", _NONE))))), ("Tuple[Tuple[()], Tuple[()]]", ("tuple", (("tuple", ()), ("tuple", ())))),
+    ("Annotated[List[int], 'meta']", None),  # placeholder: decided by R13.5, skipped here
+)
+
+
+def _spec_of_value(v):
+    """The container-model type a model value denotes, or a description of what it is instead."""
+    import collections.abc as CA
+    from . import annot_model as am
+
+    if not isinstance(v, am.SV):
+        return ("?", repr(v)[:80])
+    k, a = v._kind, v._attrs
+    if k == "TypedValue":
+        return ("cls", a["typ"])
+    if k == "KnownValue":
+        return ("cls", _NONE) if a["val"] is None else ("lit", a["val"])
+    if k == "AnyValue":
+        return ("any", str(a.get("source")))
+    if k == "MultiValuedValue":
+        return ("union", frozenset(_spec_of_value(x) for x in a["vals"]))
+    if k == "GenericValue":
+        tags = {list: "list", set: "set", frozenset: "frozenset", CA.Sequence: "seq", CA.Iterable: "iter", tuple: "tuple*"}
+        if a["typ"] in tags and len(a["args"]) == 1:
+            return (tags[a["typ"]], _spec_of_value(a["args"][0]))
+        if a["typ"] in (dict, CA.Mapping) and len(a["args"]) == 2:
+            return ("dict" if a["typ"] is dict else "map", _spec_of_value(a["args"][0]), _spec_of_value(a["args"][1]))
+        return ("?", am.describe(v))
+    if k == "SequenceValue" and a["typ"] is tuple:
+        flags = [bool(m) for m, _ in a["members"]]
+        specs = tuple(_spec_of_value(x) for _, x in a["members"])
+        if not any(flags):
+            return ("tuple", specs)
+        if flags.count(True) == 1:
+            i = flags.index(True)
+            return ("tupv", specs[:i], specs[i], specs[i + 1:])
+    return ("?", am.describe(v))
+
+
+def _norm_spec(spec):
+    if spec[0] == "union":
+        return ("union", frozenset(_norm_spec(x) for x in spec[1]))
+    if spec[0] in ("list", "set", "frozenset", "seq", "iter", "tuple*"):
+        return (spec[0], _norm_spec(spec[1]))
+    if spec[0] in ("dict", "map"):
+        return (spec[0], _norm_spec(spec[1]), _norm_spec(spec[2]))
+    if spec[0] == "tuple":
+        return ("tuple", tuple(_norm_spec(x) for x in spec[1]))
+    if spec[0] == "tupv":
+        return ("tupv", tuple(_norm_spec(x) for x in spec[1]), _norm_spec(spec[2]), tuple(_norm_spec(x) for x in spec[3]))
+    return spec
+
+
+def r03_g(prog: Program, chk: Check) -> None:
+    from . import annot_model as am
+
+    chk.rule(
+        "R03.g",
+        "annotation forms denote the types whose membership R03.e / R03.f decide: each written form of the table (bare and subscripted List / Dict / Set / FrozenSet / Tuple and the builtin "
+        "generics, tuple[()], fixed, homogeneous and unpacked tuples, Sequence / Iterable / Mapping, Optional / Union / |, Literal, one level of nesting), read by the interpreted annotation "
+        "routes of R13.5 (from the AST, from a string, from the runtime object CPython evaluates it to), is the value of the container model for the type the typing documentation gives it",
+        floor=3,
+    )
+    m = am.AnnotModel(prog)
+    ns = am.namespace()
+    site = prog.site("annotations", prog.func("annotations", "_value_of_origin_args"))
+    wrong = {"ast": [], "string": [], "runtime": []}
+    unsupported = []
+    n = 0
+    for src, spec in R03G_FORMS:
+        if spec is None:
+            continue
+        want = _norm_spec(spec)
+        for route in ("ast", "string", "runtime"):
+            n += 1
+            try:
+                arg = eval(src, dict(ns)) if route == "runtime" else src
+                r = getattr(m, "via_" + route)(arg, dict(ns))
+            except AnchorError as e:
+                unsupported.append(f"{src} ({route}): {e}")
+                continue
+            got = _spec_of_value(r[0]) if isinstance(r, tuple) and r and not isinstance(r[0], str) else ("?", repr(r)[:120])
+            errors = r[1] if isinstance(r, tuple) and len(r) > 1 and not isinstance(r[0], str) else []
+            if got != want or errors:
+                wrong[route].append({"annotation": src, "route": route, "expected": cmod_str(spec), "read as": am.describe(r[0]) if isinstance(r, tuple) and r and isinstance(r[0], am.SV) else repr(r)[:200], **({"errors": list(errors)[:2]} if errors else {})})
+    chk.model_evaluations += n
+    for route, bad in wrong.items():
+        bad.sort(key=lambda d: (len(d["annotation"]), d["annotation"]))
+        chk.ob("R03.g", f"annotations::annotation-meaning::{route}", not bad, site, f"{len([f for f in R03G_FORMS if f[1] is not None])} annotation forms, {len(bad)} read as another type" + (f"; smallest: {bad[0]}" if bad else ""), witness=bad[:5])
+    if unsupported:
+        raise AnchorError(f"{len(unsupported)} annotation forms cannot be modelled; first: {unsupported[0]}")
+
+
+def cmod_str(spec) -> str:
+    from . import container_model as cmod
+
+    return cmod.spec_str(spec)
+
+
 def run(prog: Program, chk: Check) -> None:
     from .c04 import early_accept_rule
 
@@ -238,3 +357,4 @@ def run(prog: Program, chk: Check) -> None:
     guard(chk, r03_c, prog, chk)
     guard(chk, r03_e, prog, chk)
     guard(chk, r03_f, prog, chk)
+    guard(chk, r03_g, prog, chk)
